@@ -20,3 +20,20 @@ package loading
 //@ func (*scriptParser).parse(p) (pkg, found, err)
 //@ loop #2
 //@   invariant [same_len] len(annotationLines) == len(annotationLineNumbers)
+
+// C01: "files added, removed or renamed under declared globs": every declared input is resolved - a pattern to all of its
+// matches, a literal path to itself - and an entry is dropped only if an exclude pattern matches it.
+//@ func resolveInputs(logger, absolutePackagePath, inputs, excludeInputs) (r, err)
+//@   pure
+//@   reveal inStrs
+//@   ensures [literal_inputs_kept] err == nil ==> forall j int :: {inputs[j]} 0 <= j && j < len(inputs) && !isGlobPattern(inputs[j]) && !excludedBy(excludeInputs, inputs[j]) ==> inStrs(r, inputs[j])
+//@   ensures [patterns_expanded] err == nil ==> forall j int, x string :: {inStrs(globMatches(inputs[j]), x)} 0 <= j && j < len(inputs) && isGlobPattern(inputs[j]) && inStrs(globMatches(inputs[j]), x) && !excludedBy(excludeInputs, x) ==> inStrs(r, x)
+//@ loop #1
+//@   invariant [resolved_so_far] (forall j int :: {inputs[j]} 0 <= j && j <= rangeindex && !isGlobPattern(inputs[j]) ==> inStrs(resolvedInputs, inputs[j])) &&
+//@        (forall j int, x string :: {inStrs(globMatches(inputs[j]), x)} 0 <= j && j <= rangeindex && isGlobPattern(inputs[j]) && inStrs(globMatches(inputs[j]), x) ==> inStrs(resolvedInputs, x))
+//@ loop #2
+//@   invariant [only_excluded_paths] forall x string :: {inStrs(excludedPaths, x)} inStrs(excludedPaths, x) ==> excludedBy(excludeInputs, x)
+//@ loop #3
+//@   invariant [map_from_excluded_paths] excludeMap != nil && (forall x string :: {excludeMap[x]} has(excludeMap, x) && excludeMap[x] ==> inStrs(excludedPaths, x))
+//@ loop #4
+//@   invariant [kept_unless_excluded] forall i int :: {resolvedInputs[i]} 0 <= i && i <= rangeindex && !excludedBy(excludeInputs, resolvedInputs[i]) ==> inStrs(filteredInputs, resolvedInputs[i])
